@@ -42,5 +42,10 @@ let () =
          let r = show_num_res (numeric_do op a b) in
          let sp = (match spec_arith op a b with Some x -> show_num_res x | None -> "-") in
          Printf.printf "%s\t%s\t%s\n" id r sp
+       | ["mod"; _; a; b] ->
+         let a = parse_num a and b = parse_num b in
+         let r = show_num_res (mod_do a b) in
+         let sp = (match spec_mod a b with Some x -> show_num_res x | None -> "-") in
+         Printf.printf "%s\t%s\t%s\n" id r sp
        | _ -> failwith ("bad case: " ^ body))
     | _ -> failwith ("bad line: " ^ line))
